@@ -805,8 +805,8 @@ def _execute(case, exclude):
 ASSEM_TYPES = ["fuel", "feed fuel", "igniter fuel", "driver", "lead test assembly", "test", "control", "primary control",
                "secondary control", "radial shield"]
 # entries of the nonUniformAssemFlags setting: equal to, broader than, narrower than, unrelated to the assembly types
-NON_UNIFORM = ["control", "primary control", "secondary control", "fuel", "feed fuel", "igniter fuel", "test", "shield",
-               "radial shield", "primary", "feed", "reflector"]
+NON_UNIFORM = ["control", "control", "fuel", "fuel", "shield", "test", "primary", "secondary", "feed", "igniter", "radial",
+               "primary control", "secondary control", "feed fuel", "igniter fuel", "radial shield", "reflector"]
 
 
 def core_strategy(tier):
@@ -818,7 +818,7 @@ def core_strategy(tier):
             "followers": st.lists(st.sampled_from(ASSEM_TYPES), min_size=1, max_size=3),
             # how the followers are snapped after each reference change: "auto" = manageCoreMesh, True / False =
             # setBlockMesh(refMesh, conserveMassFlag=...) directly
-            "nonUniform": st.lists(st.sampled_from(NON_UNIFORM), min_size=0, max_size=3),
+            "nonUniform": st.lists(st.sampled_from(NON_UNIFORM), min_size=0, max_size=4),
             "conserve": st.lists(st.sampled_from(["auto", "auto", True, False]), min_size=1, max_size=3),
             "steps": st.lists(step, min_size=1, max_size=3),
         }
@@ -956,7 +956,9 @@ PARTS_EXTRA = [
          rule="Hypothesis: a reference assembly and 1-3 follower assemblies of the same design with assembly type names with and "
               "without the fuel flag (fuel, feed fuel, igniter fuel, driver, lead test assembly, test), snap lists made; 1-3 "
               "prescribed changes of the reference (all clauses), each followed by AxialExpansionChanger.manageCoreMesh "
-              "(setBlockMesh(refMesh, 'auto') on every assembly) or by setBlockMesh(refMesh, True / False) on the followers. Oracle: followers on the reference mesh (contiguous, positive, "
+              "(setBlockMesh(refMesh, 'auto') on every assembly; snap lists from the real makeAssemsAbleToSnapToUniformMesh with generated "
+              "nonUniformAssemFlags entries equal to / broader / narrower than / unrelated to the assembly types: flag-group matches get "
+              "no snap list and stay untouched) or by setBlockMesh(refMesh, True / False) on the followers. Oracle: followers on the reference mesh (contiguous, positive, "
               "bounds, total height); fuel blocks conserve their fuel (target) mass whatever the assembly type; below-fuel "
               "structure conserved in fuel-typed assemblies; True: every component's mass conserved; False: densities unchanged. Non-trivial = a fuel block and two blocks with different target growth"),
 ]
